@@ -118,7 +118,9 @@ CLAIMED = {
                 "for every digit list and exponent (no exponent notation, nothing rounded); fractional seconds of any "
                 "length are rounded half-up to the microsecond; the +1us carry keeps times valid; timezone rules "
                 "(00:00 -> UTC, hour >= 24 rejected, offset value); a decoded date/time/dateTime is never an "
-                "impossible one. Witness theorems for the known findings D13 (24:00:00 rejected) and D20 (date "
+                "impossible one; date_roundtrip / time_roundtrip / datetime_roundtrip: parse(isoformat(v)) = v for every valid "
+                "date, time of day (with or without microseconds) and naive / UTC / fixed-offset zone below 24 h. "
+                "Witness theorems for the known findings D13 (24:00:00 rejected) and D20 (date "
                 "timezone not validated). The model (scanner for the three regexes, match->value functions, "
                 "isoformat, decimal formatter) is tied to the code by a correspondence on ~60k cases per run; an "
                 "independent XSD oracle (Fraction/datetime arithmetic) judges every decoded value, and real "
@@ -280,14 +282,16 @@ CLAIMED = {
                      "crash-point sweep + history correspondence",
     },
     "C05": {
-        "text": "PARTIAL proof. Lean model of promotePrefixes (threaded through the children exactly as the loop "
+        "text": "Lean model of promotePrefixes (threaded through the children exactly as the loop "
                 "mutates), PrefixNormalizer and refitPrefixes over the shared tree model, and of the namespace-"
-                "resolved infoset. Proved: one hoist step captures nothing (every prefix that resolved below the "
-                "parent still resolves to the same namespace, through any inner scopes) and the donor keeps its "
-                "binding - the inductive heart of 'promotion preserves the infoset'; a kernel-checked witness that "
-                "the un-repaired rule captures (D5, fixed in /repo) while the repaired one does not; promotion moves "
-                "tables only; refit leaves no element prefix. Not proved: the whole-tree induction (statement kept as "
-                "promoteStmt). The whole-tree claim rests on (a) correspondence model = code for all three passes on "
+                "resolved infoset. Proved: promote_preserves_infoset - for EVERY namespace-well-formed tree (any size, "
+                "depth, declaration tables) the infoset after promotePrefixes equals the one before (induction over the "
+                "tree with the parent's table threaded through the children; the hypothesis is decidable, "
+                "Elem.wellFormed, and the driver evaluates it on every generated tree); promoteStmt_false refutes the "
+                "unguarded statement (an unbound prefix use is captured - not a namespace-well-formed document); the "
+                "one-hoist lemmas; a kernel-checked witness that the un-repaired rule captures (D5, fixed in /repo) "
+                "while the repaired one does not; promotion moves tables only; refit leaves no element prefix. PARTIAL "
+                "for the normaliser and refitPrefixes (no whole-tree theorem): those rest on (a) correspondence model = code for all three passes on "
                 "generated namespace-well-formed trees (shadowing, re-declaration, QName-valued attributes) and (b) "
                 "the expat oracle: infoset before = infoset after, every prefix declared; end-to-end all 16 option "
                 "settings x argument shapes (xsi:type, xsi:nil, qualified/unqualified, two namespaces, raw Elements, "
@@ -299,12 +303,13 @@ CLAIMED = {
                      "differential correspondence + independent XML reader as oracle",
     },
     "C18": {
-        "text": "PARTIAL proof. Lean model of MultiRef.process (catalogue by id, root filtering, href substitution "
-                "with the referrer taking over children / text / attributes except id). Proved for every catalogue, "
-                "element and nesting budget: content without references is untouched; one reference level "
-                "(<r href='#k'/> + <multiRef id='k'>C</multiRef> reads as <r>C</r> with C's attributes); a dangling "
-                "href leaves only that element unresolved; the body keeps exactly its SOAP roots. Arbitrary nesting "
-                "and the decoding itself are checked: rpc/encoded reply values (structs, nested structs, arrays of "
+        "text": "Lean model of MultiRef.process (catalogue by id, root filtering, href substitution "
+                "with the referrer taking over children / text / attributes except id). Proved: outlined_body_decodes - "
+                "for every reply content, every set of nodes moved out of line (nested ones included, any depth) and "
+                "distinct ids, build_catalog + update over the writer's body return the inline tree (an encoder/decoder "
+                "round trip by induction over the tree; catalogue lemmas); content without references is untouched; a "
+                "dangling href leaves only that element unresolved; the body keeps exactly its SOAP roots. The decoded "
+                "VALUES are checked, not proved: rpc/encoded reply values (structs, nested structs, arrays of "
                 "simple and struct items, empty arrays) are written inlined and with random out-lining (any subset, "
                 "shared targets, nested references, id spellings, placement, marked/unmarked roots, dangling hrefs) "
                 "and must decode equal through the real client; MultiRef.process is compared with the model on every "
